@@ -85,12 +85,57 @@ def sensitivity(argv):
     return 0 if bad == 0 else 1
 
 
+def seeded(argv):
+    """Run the quick checks against every kept sub-agent change in /verif/seeded/<id>/
+    (patch.diff applied to a scratch copy of /repo/src): each must be detected by the check
+    of the property it breaks."""
+    only = set(a for a in argv if not a.startswith("-"))
+    budget = float(os.environ.get("VERIF_SELFTEST_BUDGET_S", "45"))
+    base = os.path.join(VERIF_ROOT, "seeded")
+    rows, bad = [], 0
+    for sid in sorted(os.listdir(base)) if os.path.isdir(base) else []:
+        meta_p = os.path.join(base, sid, "meta.json")
+        if not os.path.exists(meta_p) or (only and sid not in only):
+            continue
+        meta = kernel.read_json(meta_p)
+        root = make_copy()
+        try:
+            p = subprocess.run(["patch", "-p1", "-s", "-d", root, "-i", os.path.join(base, sid, "patch.diff")],
+                               stdout=subprocess.PIPE, stderr=subprocess.STDOUT, text=True)
+            if p.returncode != 0:
+                print(f"ERROR    {sid}: patch does not apply: {p.stdout[-200:]}")
+                bad += 1
+                continue
+            detected_by = []
+            first = ""
+            for prop in meta.get("checks", [meta["property"]]):
+                rc, out, dt = run_check_against(root, prop, budget)
+                lines = [l for l in out.splitlines() if l.startswith("  class=")]
+                if rc == 1:
+                    detected_by.append(prop)
+                    first = first or (lines[0].strip()[:150] if lines else "")
+                elif rc != 0:
+                    first = first or f"rc={rc} " + out.strip().splitlines()[-1][:120]
+            ok = meta["property"] in detected_by
+            if not ok:
+                bad += 1
+            rows.append({"id": sid, "property": meta["property"], "detected_by": detected_by, "first": first})
+            print(f"{'DETECTED' if ok else 'MISSED  '} {meta['property']} {sid:<44} by={','.join(detected_by) or '-'} {first}", flush=True)
+        finally:
+            shutil.rmtree(root, ignore_errors=True)
+    kernel.write_json(os.path.join(VERIF_ROOT, "selftest_seeded.json"), {"rows": rows, "missed": bad})
+    print(f"seeded: {len(rows) - bad}/{len(rows)} kept changes detected")
+    return 0 if bad == 0 else 1
+
+
 def main(argv):
     if not argv:
         eprint("usage: check selftest determinism|sensitivity [ids]")
         return 2
     if argv[0] == "sensitivity":
         return sensitivity(argv[1:])
+    if argv[0] == "seeded":
+        return seeded(argv[1:])
     if argv[0] == "determinism":
         from . import selftest_det
         return selftest_det.main(argv[1:])
